@@ -255,11 +255,30 @@ unsafe impl GlobalAlloc for Counting {
     }
     unsafe fn dealloc(&self, p: *mut u8, l: Layout) {
         let tid = gettid();
+        if tid != MAIN_TID.load(SeqCst) {
+            exit_stall(tid);
+        }
         let mut g = self.m.lock();
         match (*self.book.get()).on_free(p as usize, l, tid) {
             (1, _) => g.dl.free(p),
             (2, n) => core::ptr::write_bytes(p, POISON, n),
             _ => {}
+        }
+    }
+}
+
+/// A spawned thread frees something after its closure is done: it is in its epilogue. Sleep first when asked to.
+fn exit_stall(tid: u32) {
+    for i in 0..MAXN {
+        if TID[i].load(SeqCst) == tid {
+            let ns = STALL_NS[i].load(SeqCst);
+            if ns != 0 && DONE[i].load(SeqCst) == 1 && STALL_COUNT[i].load(SeqCst) < 4 {
+                STALL_COUNT[i].fetch_add(1, SeqCst);
+                STALL_NOW[i].store(1, SeqCst);
+                sleep_ns(ns as u64);
+                STALL_NOW[i].store(0, SeqCst);
+            }
+            return;
         }
     }
 }
@@ -566,6 +585,11 @@ struct Spec {
     cda: u32,
     pda: u32,
     tag: u64,
+    /// exit stall: every free the thread makes after its closure is done (its epilogue: closure box, thread-local
+    /// block, ...) first sleeps this long, so that "the thread is finishing" lasts long enough to be hit on purpose
+    stall_ns: u32,
+    /// the parent carries out its disposition when the k-th such stall has begun (0 = no rendezvous)
+    stall_k: u8,
 }
 const SPEC_BYTES: usize = 32;
 
@@ -582,6 +606,8 @@ impl Spec {
             cda: u32::from_le_bytes([b[8], b[9], b[10], b[11]]),
             pda: u32::from_le_bytes([b[12], b[13], b[14], b[15]]),
             tag: u64::from_le_bytes([b[16], b[17], b[18], b[19], b[20], b[21], b[22], b[23]]),
+            stall_ns: u32::from_le_bytes([b[24], b[25], b[26], b[27]]).min(2_000_000),
+            stall_k: b[28],
         }
     }
 }
@@ -591,6 +617,11 @@ const Z64: AtomicU64 = AtomicU64::new(0);
 static RUN: [AtomicU32; MAXN] = [Z32; MAXN];
 static TID: [AtomicU32; MAXN] = [Z32; MAXN];
 static CANARY_ADDR: [AtomicU64; MAXN] = [Z64; MAXN];
+/// exit stall bookkeeping (see `Spec::stall_ns`): closure done, stalls begun, 1 while a stall is sleeping
+static DONE: [AtomicU32; MAXN] = [Z32; MAXN];
+static STALL_NS: [AtomicU32; MAXN] = [Z32; MAXN];
+static STALL_COUNT: [AtomicU32; MAXN] = [Z32; MAXN];
+static STALL_NOW: [AtomicU32; MAXN] = [Z32; MAXN];
 static ALIVE: AtomicU32 = AtomicU32::new(0);
 static MAX_ALIVE: AtomicU32 = AtomicU32::new(0);
 static EPOCH: AtomicU64 = AtomicU64::new(0);
@@ -659,9 +690,12 @@ fn body<T: Res>(c: Clo) -> T {
     black_box(&can);
     ALIVE.fetch_sub(1, SeqCst);
     if c.behave == 1 {
+        DONE[c.i].store(1, SeqCst);
         panic!("generated panic");
     }
-    T::make(c.tag)
+    let v = T::make(c.tag);
+    DONE[c.i].store(1, SeqCst);
+    v
 }
 
 static CLOSZ: [AtomicU32; MAXN] = [Z32; MAXN];
@@ -1004,6 +1038,8 @@ struct PerSpec {
     vlen: u32,
     buf_join: u64,
     buf: usize,
+    /// bit 0: the disposition began while the thread slept in its epilogue; bit 1: join returned while it still slept
+    stall_obs: u8,
 }
 
 #[no_mangle]
@@ -1079,7 +1115,7 @@ pub fn main() -> i32 {
         if n == 0 || n > MAXN || len < 4 + n * SPEC_BYTES {
             return 7;
         }
-        let mut specs = [Spec { ty: 0, behave: 0, disp: 0, inline: 0, cdk: 0, pdk: 0, buflen: 0, cda: 0, pda: 0, tag: 0 }; MAXN];
+        let mut specs = [Spec { ty: 0, behave: 0, disp: 0, inline: 0, cdk: 0, pdk: 0, buflen: 0, cda: 0, pda: 0, tag: 0, stall_ns: 0, stall_k: 0 }; MAXN];
         for i in 0..n {
             specs[i] = Spec::parse(&inbuf[4 + i * SPEC_BYTES..4 + (i + 1) * SPEC_BYTES]);
         }
@@ -1099,6 +1135,10 @@ fn run_batch(specs: &[Spec], pipe: (usize, usize)) {
         CANARY_ADDR[i].store(0, SeqCst);
         CLOSZ[i].store(0, SeqCst);
         WOKE[i].store(0, SeqCst);
+        DONE[i].store(0, SeqCst);
+        STALL_COUNT[i].store(0, SeqCst);
+        STALL_NOW[i].store(0, SeqCst);
+        STALL_NS[i].store(if i < n { specs[i].stall_ns } else { 0 }, SeqCst);
     }
     MAX_ALIVE.store(0, SeqCst);
     let (lc0, lb0) = with_book(|b| {
@@ -1109,7 +1149,7 @@ fn run_batch(specs: &[Spec], pipe: (usize, usize)) {
     QUARANTINE_ON.store(1, SeqCst);
     const NONE_H: Option<H> = None;
     let mut handles: [Option<H>; MAXN] = [NONE_H; MAXN];
-    const PS0: PerSpec = PerSpec { spawn_errno: 0, join_class: 0, vhash: 0, vlen: 0, buf_join: 0, buf: 0 };
+    const PS0: PerSpec = PerSpec { spawn_errno: 0, join_class: 0, vhash: 0, vlen: 0, buf_join: 0, buf: 0, stall_obs: 0 };
     let mut ps: [PerSpec; MAXN] = [PS0; MAXN];
 
     // heap buffers for the memory effects (allocated and freed by the main thread inside the batch)
@@ -1123,8 +1163,23 @@ fn run_batch(specs: &[Spec], pipe: (usize, usize)) {
 
     let mut finish = |i: usize, handles: &mut [Option<H>; MAXN], ps: &mut [PerSpec; MAXN], join: bool| {
         if let Some(h) = handles[i].take() {
+            // rendezvous with the thread's epilogue: wait (bounded) until its k-th stalled free has begun
+            let k = specs[i].stall_k as u32;
+            if k > 0 && specs[i].stall_ns > 0 {
+                let mut polls = 0;
+                while polls < 400 && !(STALL_COUNT[i].load(SeqCst) >= k && STALL_NOW[i].load(SeqCst) == 1) && STALL_COUNT[i].load(SeqCst) <= k {
+                    sleep_ns(10_000);
+                    polls += 1;
+                }
+                if STALL_COUNT[i].load(SeqCst) == k && STALL_NOW[i].load(SeqCst) == 1 {
+                    ps[i].stall_obs |= 1; // the disposition starts while the thread sleeps in its epilogue
+                }
+            }
             if join {
                 let (c, hsh, l) = join_h(h);
+                if STALL_NOW[i].load(SeqCst) == 1 {
+                    ps[i].stall_obs |= 2; // join came back while the thread still sleeps in its epilogue
+                }
                 ps[i].join_class = c;
                 ps[i].vhash = hsh;
                 ps[i].vlen = l;
@@ -1243,7 +1298,7 @@ fn run_batch(specs: &[Spec], pipe: (usize, usize)) {
         o8(ps[i].join_class);
         o8(canary[i]);
         o8(WOKE[i].load(SeqCst) as u8);
-        o8(0);
+        o8(ps[i].stall_obs | ((STALL_COUNT[i].load(SeqCst) as u8) << 4));
         o32(RUN[i].load(SeqCst));
         o32(TID[i].load(SeqCst));
         o64(ps[i].vhash);
